@@ -107,6 +107,17 @@ func c20R2(c *Ctx) {
 		}
 	}
 	if schemaP == nil || idP == nil {
+		// renamed parameters: the only string parameter is the id, the only *StepOutputSchema parameter the schema
+		for _, p := range fn.Params {
+			switch {
+			case p.Type().String() == "string":
+				idP = p
+			case strings.HasSuffix(p.Type().String(), "schema.StepOutputSchema"):
+				schemaP = p
+			}
+		}
+	}
+	if schemaP == nil || idP == nil {
 		c.unresolved("parameters of infer.OutputSchema")
 		return
 	}
